@@ -406,6 +406,225 @@ theorem samplesOf_index (k : Key) (i : Nat) (evs : List Ev) :
     · exact ih
 
 
+/-! ## C20, gauges -/
+
+/-- the value of the last `set` of gauge `k` in `evs`, `cur` if there is none -/
+def lastSet (k : Key) (cur : Nat) : List Ev → Nat
+  | [] => cur
+  | .gset k' b :: es => lastSet k (if k' = k then b else cur) es
+  | _ :: es => lastSet k cur es
+
+theorem run_gaugeOf (s : State) (evs : List Ev) (k : Key) :
+    (run s evs).1.gaugeOf k = lastSet k (s.gaugeOf k) evs := by
+  induction evs generalizing s with
+  | nil => rfl
+  | cons e es ih =>
+    rw [run_cons]; simp only []
+    rw [ih]
+    cases e with
+    | gset k' b =>
+      have : (step s (.gset k' b)).1.gaugeOf k = if k' = k then b else s.gaugeOf k := by
+        by_cases h : k' = k
+        · simp [step, State.gaugeOf, FMap.get_put, h]
+        · have h' : ¬ k = k' := fun e => h e.symm
+          simp [step, State.gaugeOf, FMap.get_put, h, h']
+      rw [this]; rfl
+    | hrec k' v =>
+      have : (step s (.hrec k' v)).1.gaugeOf k = s.gaugeOf k := by
+        simp only [step]; split <;> simp [State.gaugeOf]
+      rw [this]; rfl
+    | _ => rfl
+
+theorem lastSet_append (k : Key) (cur : Nat) (a b : List Ev) :
+    lastSet k cur (a ++ b) = lastSet k (lastSet k cur a) b := by
+  induction a generalizing cur with
+  | nil => rfl
+  | cons e es ih => cases e <;> simp only [List.cons_append, lastSet, ih]
+
+/-- `lastSet` is what its name says: after `… gset k b` followed by steps that do not set `k`, it is `b`. -/
+theorem lastSet_spec (k : Key) (cur b : Nat) (a c : List Ev) (hc : ∀ b', Ev.gset k b' ∉ c) :
+    lastSet k cur (a ++ Ev.gset k b :: c) = b := by
+  rw [lastSet_append]
+  simp only [lastSet, ↓reduceIte]
+  generalize lastSet k cur a = x
+  clear a
+  induction c generalizing b with
+  | nil => rfl
+  | cons e es ih =>
+    have hes : ∀ b', Ev.gset k b' ∉ es := fun b' h => hc b' (List.mem_cons_of_mem _ h)
+    cases e with
+    | gset k' b2 =>
+      have : ¬ k' = k := by intro h; subst h; exact hc b2 (List.mem_cons_self ..)
+      simp only [lastSet, this, ↓reduceIte]; exact ih b hes
+    | _ => simp only [lastSet]; exact ih b hes
+
+/-- **C20 (gauges).** In every interleaving, a gauge load reports the value of the last `set` of that gauge that
+precedes it (the initial value if there is none), and leaves the gauge unchanged. -/
+theorem c20_gauge_last (s : State) (pre post : List Ev) (k : Key) :
+    (run s (pre ++ Ev.gload k :: post)).2 =
+      (run s pre).2 ++ Obs.gauge k (lastSet k (s.gaugeOf k) pre) :: (run (run s pre).1 post).2 ∧
+    (run s (pre ++ Ev.gload k :: post)).1 = (run (run s pre).1 post).1 := by
+  rw [run_append, run_cons]
+  simp [step, run_gaugeOf]
+
+/-! ## C20, units: describe-before / describe-after register -/
+
+/-- the unit of the last `describe` of name `nm` in `evs`, `cur` if there is none -/
+def lastDescribe (nm : Nat) (cur : Nat) : List Ev → Nat
+  | [] => cur
+  | .describe nm' u :: es => lastDescribe nm (if nm' = nm then u else cur) es
+  | _ :: es => lastDescribe nm cur es
+
+theorem run_unitOf (s : State) (evs : List Ev) (nm : Nat) :
+    (run s evs).1.unitOf nm = lastDescribe nm (s.unitOf nm) evs := by
+  induction evs generalizing s with
+  | nil => rfl
+  | cons e es ih =>
+    rw [run_cons]; simp only []
+    rw [ih]
+    cases e with
+    | describe nm' u =>
+      have : (step s (.describe nm' u)).1.unitOf nm = if nm' = nm then u else s.unitOf nm := by
+        by_cases h : nm' = nm
+        · simp [step, State.unitOf, FMap.get_put, h]
+        · have h' : ¬ nm = nm' := fun e => h e.symm
+          simp [step, State.unitOf, FMap.get_put, h, h']
+      rw [this]; rfl
+    | hrec k' v =>
+      have : (step s (.hrec k' v)).1.unitOf nm = s.unitOf nm := by
+        simp only [step]; split <;> simp [State.unitOf]
+      rw [this]; rfl
+    | _ => rfl
+
+def Ev.isDescribe : Ev → Bool
+  | .describe _ _ => true
+  | _ => false
+
+/-- **C20 (describe order).** The unit a readout sees for a name is the unit of the last `describe_*` of that name
+before the readout reads the unit map — whatever else happened in between: registrations (before or after the
+describe), updates and readout steps do not matter. -/
+theorem c20_describe_order (s : State) (evs : List Ev) (nm : Nat) :
+    (run s evs).1.unitOf nm = lastDescribe nm (s.unitOf nm) (evs.filter Ev.isDescribe) := by
+  rw [run_unitOf]
+  generalize s.unitOf nm = cur
+  induction evs generalizing cur with
+  | nil => rfl
+  | cons e es ih => cases e <;> simp [lastDescribe, Ev.isDescribe, List.filter_cons, ih]
+
+/-! ## C20, the entry written for a readout -/
+
+theorem mem_counterItems (ez : Bool) (units : Nat → Nat) (obs : List Obs) (it : Item) :
+    it ∈ counterItems ez units obs ↔
+      ∃ k d, Obs.counter k d ∈ obs ∧ (ez = true ∨ d ≠ 0) ∧
+        it = { name := k.name, dims := k.labels, unit := units k.name, obs := [.unsigned d] } := by
+  induction obs with
+  | nil => simp [counterItems]
+  | cons o os ih =>
+    cases o with
+    | counter k d =>
+      simp only [counterItems]
+      by_cases h : (ez || d != 0) = true
+      · simp only [h, ↓reduceIte, List.mem_cons, ih]
+        constructor
+        · rintro (rfl | ⟨k', d', hm, hz, rfl⟩)
+          · exact ⟨k, d, Or.inl rfl, by simpa using h, rfl⟩
+          · exact ⟨k', d', Or.inr hm, hz, rfl⟩
+        · rintro ⟨k', d', hm | hm, hz, rfl⟩
+          · cases hm; exact Or.inl rfl
+          · exact Or.inr ⟨k', d', hm, hz, rfl⟩
+      · simp only [h, Bool.false_eq_true, ↓reduceIte, ih, List.mem_cons]
+        constructor
+        · rintro ⟨k', d', hm, hz, rfl⟩; exact ⟨k', d', Or.inr hm, hz, rfl⟩
+        · rintro ⟨k', d', hm | hm, hz, rfl⟩
+          · cases hm; exact absurd (by simpa using hz) h
+          · exact ⟨k', d', hm, hz, rfl⟩
+    | gauge k b => simp only [counterItems, ih, List.mem_cons]; simp
+    | bucket k i c => simp only [counterItems, ih, List.mem_cons]; simp
+
+theorem mem_gaugeItems (units : Nat → Nat) (obs : List Obs) (it : Item) :
+    it ∈ gaugeItems units obs ↔
+      ∃ k b, Obs.gauge k b ∈ obs ∧
+        it = { name := k.name, dims := k.labels, unit := units k.name, obs := [.floating b] } := by
+  induction obs with
+  | nil => simp [gaugeItems]
+  | cons o os ih =>
+    cases o with
+    | gauge k b =>
+      simp only [gaugeItems, List.mem_cons, ih]
+      constructor
+      · rintro (rfl | ⟨k', b', hm, rfl⟩)
+        · exact ⟨k, b, Or.inl rfl, rfl⟩
+        · exact ⟨k', b', Or.inr hm, rfl⟩
+      · rintro ⟨k', b', hm | hm, rfl⟩
+        · cases hm; exact Or.inl rfl
+        · exact Or.inr ⟨k', b', hm, rfl⟩
+    | counter k d => simp only [gaugeItems, ih, List.mem_cons]; simp
+    | bucket k i c => simp only [gaugeItems, ih, List.mem_cons]; simp
+
+theorem mem_bucketsOf (k : Key) (obs : List Obs) (ov : OV) :
+    ov ∈ bucketsOf k obs ↔
+      ∃ i c, Obs.bucket k i c ∈ obs ∧ 0 < c ∧ ov = .repeated (bucketValue i) (c % two32) := by
+  induction obs with
+  | nil => simp [bucketsOf]
+  | cons o os ih =>
+    cases o with
+    | bucket k' i c =>
+      simp only [bucketsOf]
+      by_cases h : k' = k ∧ c > 0
+      · obtain ⟨rfl, hc⟩ := h
+        simp only [hc, and_self, ↓reduceIte, List.mem_cons, ih]
+        constructor
+        · rintro (rfl | ⟨i', c', hm, hz, rfl⟩)
+          · exact ⟨i, c, Or.inl rfl, hc, rfl⟩
+          · exact ⟨i', c', Or.inr hm, hz, rfl⟩
+        · rintro ⟨i', c', hm | hm, hz, rfl⟩
+          · cases hm; exact Or.inl rfl
+          · exact Or.inr ⟨i', c', hm, hz, rfl⟩
+      · simp only [h, ↓reduceIte, ih, List.mem_cons]
+        constructor
+        · rintro ⟨i', c', hm, hz, rfl⟩; exact ⟨i', c', Or.inr hm, hz, rfl⟩
+        · rintro ⟨i', c', hm | hm, hz, rfl⟩
+          · cases hm; exact absurd ⟨rfl, hz⟩ h
+          · exact ⟨i', c', hm, hz, rfl⟩
+    | counter k d => simp only [bucketsOf, ih, List.mem_cons]; simp
+    | gauge k b => simp only [bucketsOf, ih, List.mem_cons]; simp
+
+/-- **C20 (entry shape).** The entry written for a readout that observed `obs` in (final) state `s`: a timestamp and
+`AllowSplitEntries`; exactly one counter value per reported non-zero (or, with `emit_zero_counters`, any) delta, one
+gauge value per loaded gauge, one histogram value per registered histogram — each under the key's registered name,
+with the key's labels as dimensions and the unit described for that name; a histogram's observations are exactly
+the non-empty buckets swapped out for it, as (bucket value, count as u32). -/
+theorem c20_entry_shape (s : State) (obs : List Obs) :
+    (buildEntry s obs).hasTimestamp = true ∧ (buildEntry s obs).allowSplit = true ∧
+    (∀ it, it ∈ (buildEntry s obs).counters ↔
+      ∃ k d, Obs.counter k d ∈ obs ∧ (s.emitZero = true ∨ d ≠ 0) ∧
+        it = { name := k.name, dims := k.labels, unit := s.unitOf k.name, obs := [.unsigned d] }) ∧
+    (∀ it, it ∈ (buildEntry s obs).gauges ↔
+      ∃ k b, Obs.gauge k b ∈ obs ∧
+        it = { name := k.name, dims := k.labels, unit := s.unitOf k.name, obs := [.floating b] }) ∧
+    (buildEntry s obs).hists =
+      s.regH.map (fun k => { name := k.name, dims := k.labels, unit := s.unitOf k.name, obs := bucketsOf k obs }) ∧
+    (∀ k ov, ov ∈ bucketsOf k obs ↔
+      ∃ i c, Obs.bucket k i c ∈ obs ∧ 0 < c ∧ ov = .repeated (bucketValue i) (c % two32)) :=
+  ⟨rfl, rfl, mem_counterItems _ _ _, mem_gaugeItems _ _, rfl, fun k ov => mem_bucketsOf k obs ov⟩
+
+/-! ## C20, the described unit: the table of `unit.rs` and the histogram configuration, regenerated from the source -/
+
+/-- the model's histogram layout is the one configured in `Histogram::default_configuration` (T-gen) -/
+theorem c20_hist_config_matches_source :
+    Generated.MetricsRs.histGrouping = histGrouping ∧ Generated.MetricsRs.histMaxPower = histMaxPower := by
+  decide
+
+/-- **C20 (described unit).** `metrics_024_unit_to_metrique_unit` (as regenerated from `unit.rs`) maps every
+metrics.rs unit, exactly once, to a metrique unit that denotes the same physical quantity (`MUnit.denote` /
+`QUnit.denote` are written by hand from the two crates' documentation); no unit maps to `Unit::None`. -/
+theorem c20_unit_table_preserves_quantity (u : MUnit) :
+    (Generated.MetricsRs.unitTable.lookup u).bind QUnit.denote = some u.denote ∧
+      (Generated.MetricsRs.unitTable.filter (fun p => p.1 == u)).length = 1 := by
+  cases u <;> decide
+
+theorem c20_unit_none_is_none : Generated.MetricsRs.unitNone = QUnit.None := by decide
+
 /-- Non-vacuity: two updaters racing with two readouts on one counter (`inc 5`, swap, `inc 7`, `inc 2^64-1`, swap,
 `inc 3`): the reported deltas are 5 and 6 (= 7 + 2^64-1 wrapped), 3 stays; a histogram sample lands between the
 bucket swaps of a drain. -/
@@ -424,3 +643,9 @@ end MetricsRs
 #print axioms MetricsRs.c20_counter_conservation
 #print axioms MetricsRs.c20_hist_exactly_once
 #print axioms MetricsRs.c20_hist_conservation
+#print axioms MetricsRs.c20_gauge_last
+#print axioms MetricsRs.c20_describe_order
+#print axioms MetricsRs.c20_entry_shape
+#print axioms MetricsRs.c20_hist_config_matches_source
+#print axioms MetricsRs.c20_unit_table_preserves_quantity
+#print axioms MetricsRs.c20_unit_none_is_none
